@@ -117,11 +117,15 @@ func genMerge(repo string) {
 	}
 	globalVisits := visits("langserver/check/check_third_file.go", "generateAllGlobalMaps")
 	typeVisits := visits("langserver/check/check_all.go", "rebuidCreateTypeMap")
+	// the per-project second pass (ProjectFiles): the helper that sorts the project's files and the two merges that use it
+	projectVisits := append(visits("langserver/check/check_second_project.go", "sortedProjectFiles"),
+		append(visits("langserver/check/check_second_project.go", "generateAllFristGlobalGMaps"), visits("langserver/check/check_second_project.go", "handleOtherFileInsertSub")...)...)
 	var b strings.Builder
 	b.WriteString("namespace LuaHelper.Gen\n\n/-- the if statements of the candidate loop of JudgeShouldInsertGlobalInfo: condition => action -/\n")
 	b.WriteString("def mergeConds : List String := " + leanStrList(conds) + "\n\n")
 	fmt.Fprintf(&b, "/-- FindThirdGlobalGInfo scans the candidate list from its last element downwards -/\ndef findScanBackward : Bool := %v\n\n", backward)
 	b.WriteString("/-- generateAllGlobalMaps: its loops over files and the sort between them -/\ndef globalVisits : List String := " + leanStrList(globalVisits) + "\n\n")
-	b.WriteString("/-- rebuidCreateTypeMap: its loops over files and the sort between them -/\ndef typeVisits : List String := " + leanStrList(typeVisits) + "\n\nend LuaHelper.Gen\n")
+	b.WriteString("/-- rebuidCreateTypeMap: its loops over files and the sort between them -/\ndef typeVisits : List String := " + leanStrList(typeVisits) + "\n\n")
+	b.WriteString("/-- sortedProjectFiles, generateAllFristGlobalGMaps, handleOtherFileInsertSub: their loops over files and the sort -/\ndef projectVisits : List String := " + leanStrList(projectVisits) + "\n\nend LuaHelper.Gen\n")
 	write("Merge.lean", b.String())
 }
